@@ -5,7 +5,7 @@ documented `force` option).  Whether those analyses are *sufficient* is not
 decided."""
 import ast
 from sa.index import AnalysisError, loc
-from sa.obligations import check_table
+from sa.obligations import check_table, check_predicate
 
 LEVEL = "other"
 MANIFEST = {
@@ -218,5 +218,22 @@ def check(idx, run):
               "only induction variables are replaced",
               "assignments are replaced without consulting "
               "_is_induction_variable", loc(rcls.module, app))
+    check_predicate(idx, run, "C05.R1", "ReplaceInductionVariablesTrans",
+                    "_is_induction_variable", [
+        ("assignment.rhs.walk(CodeBlock)", "the right-hand side holds a "
+         "code block"),
+        ("assignment.rhs.walk(Call)", "the right-hand side calls a routine "
+         "that is not pure"),
+        ("is_read_only()", "a variable of the right-hand side is written in "
+         "the loop body"),
+        ("var_accesses[0].node is not assignment.lhs", "the variable is "
+         "accessed before this assignment"),
+        ("subscripts", "the assigned variable is an array element"),
+        (("access_type != AccessType.READ",
+          "access_type is not AccessType.READ",
+          "access_type not in [AccessType.READ]"),
+         "a later access to the variable is anything but a read (a second "
+         "assignment, or a call that may update it)"),
+    ])
     check_sufficiency(idx, run)
     run.assumptions = ["beyond R2, sufficiency of the guards is not decided"]
